@@ -65,9 +65,9 @@ CATALOGUE = [
     ("align-center-rounding", "C08", "align.py", "                left = excess_space // 2\n                pad = Segment(\" \" * left, style)", "                left = (excess_space + 1) // 2\n                pad = Segment(\" \" * left, style)"),
     ("columns-column-first-order", "C08", "columns.py", "                    if column_lengths[col]:\n                        row += 1", "                    if column_lengths[col] > 1:\n                        row += 1"),
     ("measure-text-min-uses-len", "C09", "text.py", "min_text_width = max(cell_len(word) for word in text.split())", "min_text_width = max(len(word) for word in text.split())"),
-    ("table-measure-forgets-extra", "C09", "table.py", "            sum(measurement.minimum for measurement in measurements) + extra_width\n        )", "            sum(measurement.minimum for measurement in measurements)\n        )"),
+    ("measurement-get-not-clamped", "C09", "measure.py", "                    .with_maximum(_max_width)\n", "\n"),
     ("table-expand-stale-width", "C07", "table.py", "            widths = [_range.maximum or 1 for _range in width_ranges]\n            table_width = sum(widths)\n", "            widths = [_range.maximum or 1 for _range in width_ranges]\n"),
-    ("table-row-order-footer", "C07", "table.py", "left, right, _divider = box_segments[0 if first else (2 if last else 1)]", "left, right, _divider = box_segments[0 if first else (1 if last else 2)]"),
+    ("table-column-cells-reversed", "C07", "table.py", "        for cell in column.cells:\n            _append((cell_style, cell))", "        for cell in (list(column.cells)[::-1] if column_index == 1 else column.cells):\n            _append((cell_style, cell))"),
     # ---- C14
     ("color-parse-valueerror", "C14", "color.py", "            except ValueError:\n                raise ColorParseError(", "            except KeyError:\n                raise ColorParseError("),
     # ---- C15
